@@ -43,6 +43,15 @@ type obsStats struct {
 // callbacks (which callback, with which arguments, in which order): part of the observable result.
 var callLog *strings.Builder
 
+// reparseProbe (off; VERIF_REPARSE=1 turns it on): also Parse+Dispatch a second time on the same object.
+// On the pinned code a GetOpt object is single-use - a second Parse appends to the remaining arguments of the
+// first - so C20 ("two runs of the same definition") is read as "two freshly built objects"; DESIGN §14.3.
+var reparseProbe = os.Getenv("VERIF_REPARSE") == "1"
+
+// sharedVars holds, per execution and per node, the variables that several StringVar options of
+// that node store into.
+var sharedVars map[*getoptions.GetOpt]*[3]string
+
 func define(o *getoptions.GetOpt, d OptDef) {
 	var fns []getoptions.ModifyFn
 	if d.SuggFn {
@@ -108,8 +117,15 @@ func define(o *getoptions.GetOpt, d OptDef) {
 		sv := []string{"pre1", "pre2", "pre3"}
 		o.StringSliceVar(&sv, d.Name, d.Min, d.Max, fns...)
 	case 14:
-		var v string
-		o.StringVar(&v, d.Name, "vardef", fns...)
+		if d.ShareVar > 0 && sharedVars != nil {
+			if sharedVars[o] == nil {
+				sharedVars[o] = &[3]string{}
+			}
+			o.StringVar(&sharedVars[o][d.ShareVar], d.Name, "vardef", fns...)
+		} else {
+			var v string
+			o.StringVar(&v, d.Name, "vardef", fns...)
+		}
 	}
 }
 
@@ -125,6 +141,9 @@ func build(o *getoptions.GetOpt, c *CmdDef, path string, ran *string, nodes *[]n
 	}
 	if c.Unset {
 		o.UnsetOptions()
+	}
+	if c.Lower && path != "prog" {
+		o.SetMapKeysToLower()
 	}
 	if c.RequireOrder {
 		o.SetRequireOrder()
@@ -213,6 +232,12 @@ func observeArgv(sc *Scenario, ord Order, st *obsStats, shared []string) (out st
 		for _, kv := range sc.Env {
 			os.Setenv(kv[0], kv[1])
 		}
+		if sc.SelfEmpty {
+			// a multi-call binary: the executable name differs from program to program
+			old := os.Args[0]
+			os.Args[0] = fmt.Sprintf("/opt/bin/applet%d", scenarioHash(sc)%7)
+			defer func() { os.Args[0] = old }()
+		}
 		defer func() {
 			for _, kv := range sc.Env {
 				os.Unsetenv(kv[0])
@@ -253,6 +278,8 @@ func observeArgv(sc *Scenario, ord Order, st *obsStats, shared []string) (out st
 					opt.SetMapKeysToLower()
 				}
 				ran := ""
+				sharedVars = map[*getoptions.GetOpt]*[3]string{}
+				defer func() { sharedVars = nil }()
 				var calls strings.Builder
 				callLog = &calls
 				defer func() { callLog = nil }()
@@ -287,6 +314,11 @@ func observeArgv(sc *Scenario, ord Order, st *obsStats, shared []string) (out st
 							fmt.Fprintf(&b, "value %s --%s=%v called=%v as=%q\n", n.path, d.Name, n.opt.Value(d.Name), n.opt.Called(d.Name), n.opt.CalledAs(d.Name))
 						}
 					}
+					for _, n := range nodes {
+						if sv := sharedVars[n.opt]; sv != nil {
+							fmt.Fprintf(&b, "shared-vars %s=%q\n", n.path, sv[1:])
+						}
+					}
 					if err == nil {
 						var rw bytes.Buffer
 						getoptions.Writer = &rw
@@ -296,6 +328,19 @@ func observeArgv(sc *Scenario, ord Order, st *obsStats, shared []string) (out st
 						getoptions.Writer = &w
 						derr := opt.Dispatch(context.Background(), rem)
 						fmt.Fprintf(&b, "dispatch.error=%s\ndispatch.ran=%s\n", errClass(derr), ran)
+						if reparseProbe {
+							// the same object parses the same arguments again: which command is selected and what
+							// is left over must not depend on the previous Parse/Dispatch
+							ran1 := ran
+							ran = ""
+							rem2, err2 := opt.Parse(append([]string(nil), argv...))
+							if err2 == nil {
+								opt.Dispatch(context.Background(), rem2)
+							}
+							if fmt.Sprint(rem2) != fmt.Sprint(rem) || errClass(err2) != errClass(err) || (err2 == nil && ran != ran1) {
+								fmt.Fprintf(&b, "NONIDEMPOTENT reparse: first remaining=%q error=%s ran=%q, second remaining=%q error=%s ran=%q\n", rem, errClass(err), ran1, rem2, errClass(err2), ran)
+							}
+						}
 					}
 					for _, n := range nodes {
 						h := n.opt.Help()
@@ -319,7 +364,10 @@ func observeArgv(sc *Scenario, ord Order, st *obsStats, shared []string) (out st
 		st.mapDecisions += sim.Stats.MapDecisions
 		st.mapNonSorted += sim.Stats.MapNonSorted
 	}
-	if sim.Verdict() != simrt.VOK {
+	switch sim.Verdict() {
+	case simrt.VOK, simrt.VDeadlock, simrt.VLivelock, simrt.VCapped:
+		// goroutines the parser may have left behind are not C20's business
+	default:
 		fmt.Fprintf(&b, "SIM-VERDICT %s %s\n", sim.Verdict(), firstLine(sim.PanicMsg()))
 	}
 	return b.String()
@@ -606,6 +654,11 @@ func shrinkCmd(c *CmdDef, emit func()) {
 		c.Unset = false
 		emit()
 		c.Unset = true
+	}
+	if c.Lower {
+		c.Lower = false
+		emit()
+		c.Lower = true
 	}
 	if c.SelfName != "" {
 		s := c.SelfName
